@@ -3168,15 +3168,30 @@ class _Simu(_IObserver, _params.Updatable, ABC):
 
         is1d = values.ndim == 1
 
+        # where the values are stored is read from the leading extent of the array -- (Ne, ...) or
+        # (Nn, ...); a vector may also be a dof vector (Nn * dof_n,) -- not from a divisibility of
+        # its size: the strain of 20 elements (20, 3) is not a nodal array of 30 nodes
+        if is1d:
+            onElements = values.size == Ne and Ne != Nn
+            onNodes = not onElements and values.size % Nn == 0
+            if not onNodes and not onElements:
+                onElements = values.size % Ne == 0
+        else:
+            onNodes = values.shape[0] == Nn
+            onElements = not onNodes and values.shape[0] == Ne
+            if not onNodes and not onElements:
+                onNodes = values.size % Nn == 0
+                onElements = not onNodes and values.size % Ne == 0
+
         if nodeValues:
             shape = -1 if is1d else (Nn, -1)
-            if values.size % Nn == 0:
+            if onNodes:
                 # values stored at nodes
                 if is1d:
                     return values.ravel()
                 else:
                     return values.reshape(Nn, -1)
-            elif values.size % Ne == 0:
+            elif onElements:
                 # values stored at elements
                 values_e = values.reshape(Ne, -1)
                 # get node values from element values
@@ -3184,9 +3199,9 @@ class _Simu(_IObserver, _params.Updatable, ABC):
                 return values_n.reshape(shape)
         else:
             shape = -1 if is1d else (Ne, -1)
-            if values.size % Ne == 0:
+            if onElements:
                 return values.reshape(shape)
-            elif values.size % Nn == 0:
+            elif onNodes:
                 # get values stored at nodes (Nn, i)
                 values_n = values.reshape(Nn, -1)
                 # average over each element's nodes, group by group (element
